@@ -21,6 +21,21 @@ type vfVariant struct {
 	Name    string
 	Cfg     vfCfg
 	Resumed bool
+	// Early: each side's application writes this many payloads as soon as its own Handshake call has returned, while
+	// the other side may still be recovering lost flights
+	Early int
+}
+
+// vfC02EarlyVariants: the handshake variants again, with applications that start writing the moment their side is done.
+func vfC02EarlyVariants() []vfVariant {
+	var out []vfVariant
+	for _, v := range vfC02Variants() {
+		v.Name += "+early3"
+		v.Early = 3
+		out = append(out, v)
+	}
+
+	return out
 }
 
 func vfBaseCfg(suite vfSuiteInfo, kind string) vfCfg {
@@ -174,6 +189,7 @@ func vfC02Run(v vfVariant, mask vfMask, interval time.Duration) vfC02Outcome {
 	if err != nil {
 		return vfC02Outcome{Why: "config: " + err.Error()}
 	}
+	p.Early = v.Early
 	defer func() {
 		p.Close()
 		synctest.Wait()
@@ -241,7 +257,7 @@ func vfC02Run(v vfVariant, mask vfMask, interval time.Duration) vfC02Outcome {
 	n.SetOnSend(nil)
 	p.C.StartPump()
 	p.S.StartPump()
-	if rt := vfRoundTrip(p, "c02", 3*time.Minute); rt != "" {
+	if rt := vfRoundTripOpt(p, "c02", 3*time.Minute, v.Early > 0); rt != "" {
 		out.Why = "after both sides reported success: " + rt
 		out.Symptom = "half-open:" + strings.SplitN(rt, " (", 2)[0]
 
@@ -342,8 +358,9 @@ func TestVF_C02(t *testing.T) {
 		"bound H(f)=sum_{i<f+3} min(2^i*1s,60s) with f = faults applied; calibrated: the worst observed latency for f drops is sum_{i<f}")
 	variants := vfC02Variants()
 	interval := time.Second
+	early := vfC02EarlyVariants()
 	if vfEnv().Replay != "" {
-		vfC02Replay(t, res, variants, interval)
+		vfC02Replay(t, res, append(append([]vfVariant(nil), variants...), early...), interval)
 
 		return
 	}
@@ -377,6 +394,19 @@ func TestVF_C02(t *testing.T) {
 			rec("", nAll, func(s string) { jobs = append(jobs, job{v, vfMask{C: c, S: s}}) })
 		})
 	}
+	// applications that write as soon as their own side is done: drop / hold-back masks, exhaustive for small N, sampled beyond
+	nEarly := vfPick(2, 3)
+	actsAll := acts
+	acts = ".xh"
+	for _, v := range early {
+		rec("", nEarly, func(c string) {
+			rec("", nEarly, func(s string) { jobs = append(jobs, job{v, vfMask{C: c, S: s}}) })
+		})
+		for k := 0; k < vfPick(10, 300); k++ {
+			jobs = append(jobs, job{v, vfRandMask(vfRand("C02/"+v.Name, k), 10, 0.3, "x2sh3")})
+		}
+	}
+	acts = actsAll
 	sampled := vfPick(40, 1500)
 	for vi, v := range variants {
 		for k := 0; k < sampled; k++ {
